@@ -328,6 +328,8 @@ def h_deps(m, ctx, mode, shape, kind='include', before='text', after='run', stal
         lines.append(tuple(b'u') + (ctx.fresh_byte('a0', ASCII_LINE),))
     elif after == 'include2':
         lines.append(tuple(b'-TXTPP#include e'))
+    elif after == 'after2':
+        lines.append(tuple(b'-TXTPP#after e'))
     src = []
     for l in lines:
         src.extend(l)
@@ -337,7 +339,7 @@ def h_deps(m, ctx, mode, shape, kind='include', before='text', after='run', stal
     se.lenient = True
     dep_content = ctx.fresh_bytes('dep', 2, [111, 10])
     extra = [(WORK + b'/' + dep_src.encode(), b'dep source\n')] if dep_src != 'a.txt.txtpp' else []
-    if after == 'include2':
+    if after in ('include2', 'after2'):
         extra.append((WORK + b'/e.txtpp', b'e source\n'))
         extra.append((WORK + b'/e', b'e out\n'))
     if stale_output:
@@ -360,7 +362,7 @@ def h_deps(m, ctx, mode, shape, kind='include', before='text', after='run', stal
     if res.vname != 'HasDeps':
         violation(ctx, 'first pass in %s mode did not report the .txtpp-backed %s target as a dependency' % (mode, kind), data)
     deps = res.f[1].e
-    want = [WORK + b'/' + dep_src.encode()] + ([WORK + b'/e.txtpp'] if after == 'include2' else [])
+    want = [WORK + b'/' + dep_src.encode()] + ([WORK + b'/e.txtpp'] if after in ('include2', 'after2') else [])
     got = [bytes(d.f[1].b) for d in deps]
     if got != want:
         violation(ctx, 'first pass reported dependencies %r, expected %r' % (got, want), data)
@@ -431,5 +433,127 @@ def replay_deps(v):
             bad = (r1.returncode == 0)           # the dependency's output is stale: verify must fail
         else:
             bad = (r1.returncode != 0 or now != 'edited dep\n')
+    shutil.rmtree(root, ignore_errors=True)
+    return bad, detail
+
+
+# ----------------------------------------------------------------------------- whole-tree monitor (C10): real coordinator + real preprocess
+
+TREE_DECOYS = [b'.txtpp', b'.txtpp.cfg', b'txtpp', b'notes.txtpp.b.c', b'a.tmp', b'plain.txt', b'sub/.txtpp', b'sub/keep.txt']
+
+
+def h_tree(m, ctx, mode, inputs, recursive=True, second_mode=None, with_bad_temp=False, compare_runs=False):
+    """a directory tree with real sources and look-alike decoys, processed by the real Txtpp::run with the real preprocess
+    (one fixed schedule): every mutating FS call must target an output of a real source or one of its temp targets"""
+    from . import sched
+    it = Interp(m, ctx)
+    env = Env(it, cwd=b'/w')
+    it.env = env
+    env.add_dir(b'/w/sub')
+    b0 = ctx.fresh_byte('x0', ASCII_LINE)
+    b1 = ctx.fresh_byte('x1', ASCII_LINE)
+    srcs = {b'/w/a.txt.txtpp': tuple(b't') + (b0,) + (10,),
+            b'/w/b.txtpp': tuple(b'-TXTPP#temp t.tmp\n-k') + (b1,) + tuple(b'\n-TXTPP#write w\n-TXTPP#temp a.tmp\n'),
+            b'/w/sub/c.txtpp.md': tuple(b'-TXTPP#include ../a.txt\n')}
+    if with_bad_temp:
+        srcs[b'/w/e.txtpp'] = tuple(b'-TXTPP#temp h.txtpp.sh\n-echo\n')
+    for p, c in srcs.items():
+        env.add_file(p, c)
+    for dname in TREE_DECOYS:
+        env.add_file(b'/w/' + dname, b'decoy:' + dname)
+    env.add_file(b'/bin/sh', b'')
+    env.sched_policy = 'fifo'
+    env.proc_handler = lambda it_, rec: (0, (), ())
+    allowed = {'/w/a.txt', '/w/b', '/w/t.tmp', '/w/sub/c.md'}
+    if with_bad_temp:
+        allowed.add('/w/e')           # the output of e.txtpp (its temp target h.txtpp.sh must be refused)
+    data = {'op': 'tree', 'mode': mode, 'inputs': list(inputs), 'recursive': recursive, 'x0': syms_of((b0,)), 'x1': syms_of((b1,)),
+            'with_bad_temp': with_bad_temp, 'second_mode': second_mode}
+    snaps = []
+    for md in [mode] + ([second_mode] if second_mode else []):
+        cfg = sched.mk_config(m, inputs, md, recursive)
+        env.log = []
+        r = it.call_mir(m.find_method('Txtpp', 'run'), [cfg])
+        snaps.append((r.idx == 0, sorted((k, v) for k, v in env.snapshot().items())))
+        for op, path in env.log:
+            if path not in allowed:
+                violation(ctx, '%s: txtpp %s %s, which is neither an output of a processed source nor a temp target' % (md, op, path),
+                          dict(data, step=md, log=list(env.log)))
+            if md == 'Clean' and op in ('create', 'write', 'truncate'):
+                violation(ctx, 'clean %s %s' % (op, path), dict(data, step=md, log=list(env.log)))
+            if md == 'Verify' and path in ('/w/a.txt', '/w/b', '/w/sub/c.md'):
+                violation(ctx, 'verify %s the output %s' % (op, path), dict(data, step=md, log=list(env.log)))
+        for dname in TREE_DECOYS:
+            cur = env.read_file(b'/w/' + dname)
+            if cur is None or bytes(cur) != b'decoy:' + dname:
+                violation(ctx, '%s changed or removed the unrelated file %s' % (md, dname.decode()), dict(data, step=md))
+        for p, c in srcs.items():
+            cur = env.read_file(p)
+            if cur is None or len(cur) != len(c):
+                violation(ctx, '%s changed a source file %s' % (md, p.decode()), dict(data, step=md))
+        ctx.cover('tree_' + md + ('_ok' if r.idx == 0 else '_err'))
+    if compare_runs and len(snaps) == 2:
+        # building twice equals building once: same verdict, same tree
+        if snaps[0][0] != snaps[1][0]:
+            violation(ctx, 'the second build of the same tree has a different verdict than the first', data)
+        a = {k: v for k, v in snaps[0][1]}
+        b = {k: v for k, v in snaps[1][1]}
+        if set(a) != set(b):
+            violation(ctx, 'the second build created or removed files: %s' % sorted(set(a) ^ set(b)), data)
+        for k in a:
+            if a[k][0] == 'file' and (len(a[k][1]) != len(b[k][1])):
+                violation(ctx, 'the second build changed %s' % k, data)
+        ctx.cover('tree_twice')
+
+
+def replay_tree(v):
+    import os, shutil, subprocess, tempfile
+    from lib import build
+    d = v['data']
+    model = d.get('model', {})
+    root = tempfile.mkdtemp(prefix='replay-tree-', dir=build.scratch_dir())
+    w = os.path.join(root, 'w')
+    os.makedirs(os.path.join(w, 'sub'))
+    x0 = bytes(x if isinstance(x, int) else model.get(x, 120) for x in d['x0'])
+    x1 = bytes(x if isinstance(x, int) else model.get(x, 120) for x in d['x1'])
+    open(os.path.join(w, 'a.txt.txtpp'), 'wb').write(b't' + x0 + b'\n')
+    open(os.path.join(w, 'b.txtpp'), 'wb').write(b'-TXTPP#temp t.tmp\n-k' + x1 + b'\n-TXTPP#write w\n-TXTPP#temp a.tmp\n')
+    open(os.path.join(w, 'sub', 'c.txtpp.md'), 'wb').write(b'-TXTPP#include ../a.txt\n')
+    for dname in TREE_DECOYS:
+        open(os.path.join(w, dname.decode()), 'wb').write(b'decoy:' + dname)
+    if d.get('with_bad_temp'):
+        open(os.path.join(w, 'e.txtpp'), 'wb').write(b'-TXTPP#temp h.txtpp.sh\n-echo\n')
+
+    def snap():
+        out = {}
+        for dp, dn, fn in os.walk(w):
+            for f in fn:
+                p = os.path.join(dp, f)
+                out[os.path.relpath(p, w)] = open(p, 'rb').read()
+        return out
+    cli = ppreplay.cli_path()
+    steps = []
+    mode = d['mode']
+    if d.get('second_mode'):
+        steps = [mode, d['second_mode']]
+    else:
+        steps = [mode]
+    bad = False
+    detail = {'steps': []}
+    allowed = {'a.txt', 'b', 't.tmp', 'sub/c.md', 'e'}
+    for md in steps:
+        before = snap()
+        args = [cli] + list(MODE_ARGS[md]) + ['-q', '-j', '1'] + (['-r'] if d['recursive'] else []) + list(d['inputs'])
+        r = subprocess.run(args, cwd=w, capture_output=True)
+        after = snap()
+        changed = sorted(k for k in set(before) | set(after) if before.get(k) != after.get(k))
+        detail['steps'].append({'mode': md, 'rc': r.returncode, 'changed': changed})
+        if any(k not in allowed for k in changed):
+            bad = True
+        if md == 'Clean' and any(k not in before for k in after):
+            bad = True
+    if len(detail['steps']) == 2 and steps[0] == steps[1]:
+        if detail['steps'][0]['rc'] != detail['steps'][1]['rc'] or detail['steps'][1]['changed']:
+            bad = True
     shutil.rmtree(root, ignore_errors=True)
     return bad, detail
